@@ -29,6 +29,9 @@ Recs   == {Rec(<<>>, <<>>), Rec(<<K1>>, <<Fin(1)>>), Rec(<<K2, K1>>, <<Fin(2), F
            Rec(<<K3, K4, K1>>, <<Str(A), Null, List(<<Fin(1)>>)>>)}
 Keys   == {Str(K1), Str(K2), Str(K3), Str(K4), Str(<<>>)}
 AllLists == ListsN \cup ListsM \cup ListsP \cup ListsS
+\* values that are different but look alike when printed: 1 and "1", 0 and "0", 0 and -0 (equal), NaN and NaN (not equal)
+ConfD  == {Fin(1), Str(<<6>>), Fin(0), NZero, Str(<<5>>), NaN, List(<<Fin(1)>>), List(<<Str(<<6>>)>>)}
+ListsC == {List(s) : s \in SeqsOver(ConfD, 3)}
 
 N == Null
 C1(f, v)          == Call(f, v, N, 0, 0, "")
@@ -39,6 +42,7 @@ CK(f, v, k)       == Call(f, v, N, 0, 0, k)
 
 Cases ==
      {C1(f, l) : f \in {"sort", "unique", "reverse", "len", "head", "tail", "flatten", "spread1"}, l \in AllLists}
+  \cup {C1(f, l) : f \in {"unique", "reverse", "spread1", "flatten"}, l \in ListsC}
   \cup {CI("chunk", l, n) : l \in ListsN \cup ListsM, n \in 1..3}
   \cup {CI("index", v, i) : v \in ListsN \cup ListsM \cup Strs, i \in -4..4}
   \cup {CIJ("slice", v, i, j) : v \in ListsN \cup Strs, i \in 0..3, j \in 0..4}
@@ -82,7 +86,7 @@ LawSort ==
 LawUnique ==
   c.f = "unique" =>
      /\ \A i, j \in 1..Len(res.xs) : i # j => ~Equals(res.xs[i], res.xs[j])
-     /\ \A i \in 1..Len(c.v.xs) : \E j \in 1..Len(res.xs) : Equals(c.v.xs[i], res.xs[j])
+     /\ \A i \in 1..Len(c.v.xs) : \E j \in 1..Len(res.xs) : Equals(c.v.xs[i], res.xs[j]) \/ c.v.xs[i] = res.xs[j]   \* (NaN is kept: it equals nothing)
      /\ \A j \in 1..Len(res.xs) : \E i \in 1..Len(c.v.xs) :
            /\ c.v.xs[i] = res.xs[j]
            /\ \A h \in 1..(i - 1) : ~Equals(c.v.xs[h], res.xs[j])          \* it is the FIRST of its class
